@@ -243,10 +243,8 @@ pub fn c17_dispatcher(_m: &mut Mon, ctx: &StepCtx, stats: &mut Stats, out: &mut 
         }
     }
     let both_ok = ctx.pre_w.ext.swap_mode == SwapMode::Ok && ctx.pre_w.ext.oracle_mode == OracleMode::Ok;
-    if !o.ok {
-        // a failed transaction's call tree is truncated: only the zero-transfer evidence above is usable
-        return;
-    }
+    // a failed transaction's call tree is truncated: besides the zero-transfer evidence above only
+    // the offers actually dispatched (including the one that failed) are usable
     for c in &o.calls {
         if !c.ok {
             continue;
@@ -278,7 +276,7 @@ pub fn c17_dispatcher(_m: &mut Mon, ctx: &StepCtx, stats: &mut Stats, out: &mut 
                 let offer_amt = c.attr("offer_coin_amount").and_then(|s| s.parse::<u128>().ok()).unwrap_or(0);
                 let offer_denom = c.attr("offer_coin_denom").unwrap_or("").to_string();
                 // 2. share equation at the oracle price
-                if both_ok {
+                if both_ok && o.ok {
                     let bs = body.get("stsei_total_bonded").and_then(|v| v.as_str()).and_then(|s| s.parse::<u128>().ok()).unwrap_or(0);
                     let bb = body.get("bsei_total_bonded").and_then(|v| v.as_str()).and_then(|s| s.parse::<u128>().ok()).unwrap_or(0);
                     let r = ctx.pre_w.ext.oracle_rate_atomics; // bSei-coin per stSei-coin
@@ -308,7 +306,7 @@ pub fn c17_dispatcher(_m: &mut Mon, ctx: &StepCtx, stats: &mut Stats, out: &mut 
                     }
                 }
             }
-            Some((DISPATCHER, "dispatch_rewards", _)) => {
+            Some((DISPATCHER, "dispatch_rewards", _)) if o.ok => {
                 stats.check("c17_dispatch");
                 let rate = atomics(dcfg.krp_keeper_rate);
                 let xs = bal_of(c, &sd);
